@@ -574,6 +574,12 @@ func (e *Env) trCall(x *ECall) TV {
 			}
 		}
 		e.fail("len of sort %s", a.T.Sort)
+	case "bytesStr": // string(b) for a []byte value b in the current heap
+		need(1)
+		b := argOf(0)
+		cls := elemClass(types.Typ[types.Uint8])
+		arr := e.u.heapGet(e.st, cls, ArraySort(SInt, ArraySort(SInt, SInt)))
+		return TV{T: App("bytes_str", SString, Select(arr, App("s_arr", SInt, b.T)), App("s_off", SInt, b.T), App("s_len", SInt, b.T)), Ty: strT}
 	case "arrOf": // identity of the backing array of a slice
 		need(1)
 		return TV{T: App("s_arr", SInt, argOf(0).T), Ty: intT}
